@@ -65,6 +65,11 @@ fn real_eps() -> Vec<Ep> {
         ep!("client::profile::get_display_name", 2, c::profile::get_display_name::v3,
             |v| c::profile::get_display_name::v3::Request::new(uid(&v[0])?),
             |v| Some(c::profile::get_display_name::v3::Response::new(Some(v[1].clone())))),
+        // a response with a 3xx status (the only non-2xx success status ruma declares)
+        ep!("client::session::sso_login", 1, c::session::sso_login::v3,
+            |v| c::session::sso_login::v3::Request::new(v[0].clone()),
+            // (non-ASCII header values are the separate known class C16-header-non-ascii)
+            |v| if v[0].is_ascii() { Some(c::session::sso_login::v3::Response::new(v[0].clone())) } else { None }),
         ep!("client::profile::set_display_name", 2, c::profile::set_display_name::v3,
             |v| c::profile::set_display_name::v3::Request::new(uid(&v[0])?, Some(v[1].clone())),
             |_v| Some(c::profile::set_display_name::v3::Response::new())),
